@@ -970,6 +970,49 @@ pub fn run(out: &mut Out, tier: &str, seed: u64, prop: &str) {
         "C11" => {
             let mut pe = pools();
             pe.extras = vec!["dev", "test", "Foo_Bar", "foo-bar", "a", "not valid", ""];
+            // markers made of extras ONLY (the root of the diagram is an extra node), several of them in E on one path: every
+            // and / or shape over ==/!= of three names x every non-empty E x every S — simplify_extras(E)(S) = original(S ∪ E), the
+            // result does not depend on any member of E, and the closure form agrees
+            {
+                let names = ["alpha", "beta", "gamma"];
+                let lit = |i: usize, neg: bool| Term::X(neg, names[i].to_string());
+                let mut shapes: Vec<Term> = Vec::new();
+                for n1 in [false, true] { for n2 in [false, true] {
+                    for (i, j) in [(0usize, 1usize), (1, 0), (0, 2), (1, 2)] {
+                        shapes.push(Term::and(lit(i, n1), lit(j, n2)));
+                        shapes.push(Term::or(lit(i, n1), lit(j, n2)));
+                        for n3 in [false, true] {
+                            let k = 3 - i - j;
+                            shapes.push(Term::and(lit(i, n1), Term::or(lit(j, n2), lit(k, n3))));
+                            shapes.push(Term::or(lit(i, n1), Term::and(lit(j, n2), lit(k, n3))));
+                            shapes.push(Term::and(Term::and(lit(i, n1), lit(j, n2)), lit(k, n3)));
+                        }
+                    }
+                } }
+                for t in &shapes {
+                    let Some(m0) = try_build(out, "C11", t) else { return };
+                    for emask in 1..8u32 {
+                        let e_names: Vec<ExtraName> = (0..3).filter(|i| emask & (1 << i) != 0).map(|i| ExtraName::from_str(names[i]).unwrap()).collect();
+                        let simplified = m0.clone().simplify_extras(&e_names);
+                        let by_closure = m0.clone().simplify_extras_with(|n| e_names.contains(n));
+                        out.evaluations += 1;
+                        let input = serde_json::json!({"marker": t.line(), "E": e_names.iter().map(|n| n.to_string()).collect::<Vec<_>>()});
+                        if by_closure != simplified { out.oracle_fail("C11", "simplify_extras_with(|n| E.contains(n)) differs from simplify_extras(E)", input.clone()); }
+                        let env = CEnv::default_env().env();
+                        for smask in 0..8u32 {
+                            let set = |mask: u32| -> Vec<ExtraName> { (0..3).filter(|i| mask & (1 << i) != 0).map(|i| ExtraName::from_str(names[i]).unwrap()).collect() };
+                            if simplified.evaluate(&env, &set(smask)) != m0.evaluate(&env, &set(smask | emask)) {
+                                out.oracle_fail("C11", "simplify_extras(E)(S) differs from original(S ∪ E) on a marker made of extras only", input.clone());
+                                break;
+                            }
+                            for bit in 0..3 { if emask & (1 << bit) != 0 && simplified.evaluate(&env, &set(smask)) != simplified.evaluate(&env, &set(smask ^ (1 << bit))) {
+                                out.oracle_fail("C11", "the result of simplify_extras(E) still depends on a member of E", input.clone());
+                            } }
+                        }
+                        out.stat("c11.pure_extras_shapes");
+                    }
+                }
+            }
             for _ in 0..n_ops {
                 let a = &items[rng.below(items.len())];
                 let op = gen_op(&mut rng, &pe, &["rx"]);
@@ -1291,6 +1334,24 @@ pub fn run(out: &mut Out, tier: &str, seed: u64, prop: &str) {
                             shapes.push(Term::and(Term::or(Term::or(atoms[i].clone(), atoms[j].clone()), atoms[k].clone()), Term::or(atoms[p1].clone(), atoms[q1].clone())));
                         } }
                     } } }
+                }
+                // (A and (not X or B)) or (C and not A and X): A a substring test, B a comparison on the SAME key, X an extra, C a test on an
+                // earlier variable — a clause that loses its leading term before a later clause is compared with it (the positions of the
+                // shared terms then differ between the two clauses)
+                for (k, v) in [(3usize, "64"), (12, "win"), (1, "o")] {
+                    for (aop, anop) in [(8usize, 9usize), (9, 8), (6, 7), (7, 6)] {
+                        let (a, an) = (Term::S(k, aop, v.into()), Term::S(k, anop, v.into()));
+                        for bop in [0usize, 1, 4, 3] {
+                            let b = Term::S(k, bop, v.into());
+                            for xneg in [false, true] {
+                                let (x, xn) = (Term::X(xneg, "b".into()), Term::X(!xneg, "b".into()));
+                                for c in [Term::S(if k == 1 { 12 } else { 1 }, 1, "nt".into()), Term::S(0, 0, "cpython".into()), Term::V(1, 5, "3.8".into())] {
+                                    shapes.push(Term::or(Term::and(a.clone(), Term::or(xn.clone(), b.clone())), Term::and(Term::and(c.clone(), an.clone()), x.clone())));
+                                    if bop == 0 { shapes.push(Term::or(Term::and(a.clone(), Term::or(xn.clone(), b.clone())), Term::and(c.clone(), Term::or(an.clone(), x.clone())))); }
+                                }
+                            }
+                        }
+                    }
                 }
                 // two-sided ranges on string keys (two terms pushed for one edge), before another live edge of the same
                 // node and nested under another string key whose later value is live too
